@@ -23,6 +23,7 @@ import LinVerif.Lemmas.C16FlatAgree
 import LinVerif.Lemmas.C16Ident
 import LinVerif.Lemmas.C16RoutePerm
 import LinVerif.Lemmas.C16ProtoConv
+import LinVerif.Lemmas.C16InfluxStream
 import LinVerif.Generated.C16
 
 namespace LinVerif.Props.C16
@@ -1478,6 +1479,127 @@ theorem two_bucket_histogram_formats_disagree :
 def cfNaN : Compound := ⟨.num 0, .num 1, .num 1, .num 1, [.num 1, .nan, .num 0], [.num 1, .num 2, .pinf]⟩
 theorem nan_bucket_value_formats_disagree :
     checkCompound cfNaN = true ∧ FlatRow.compoundErr (some cfNaN) = some .bucketNaN := by decide
+
+end Neg
+
+/-! ## Round 12 — a line-protocol request: every line through ONE shared RowBuilder
+
+`influx.Parse` builds all rows of a request in one pooled `commonseries.RowBuilder`; the line parser
+fills it incrementally and returns at the first problem, so a rejected line leaves its tags / fields
+behind. With `rowBuilder.Reset()` as the first statement of the loop body (regenerated classification
+`influxResetAtLoopTop`) none of that reaches another line. -/
+
+section InfluxRequest
+open LinVerif.InfluxStream LinVerif.FlatRow
+
+/-- the rows a request stores, in order -/
+def storedRows : List LRes → List Stored
+  | [] => []
+  | .stored s :: rest => s :: storedRows rest
+  | _ :: rest => storedRows rest
+
+/-- **no state leak between the lines of a request**: for every request (any number of lines, any mix
+of comment lines, lines rejected at any stage — name, tag section, a tag, field section, a field,
+timestamp, Build — and accepted lines), every limit set, request namespace, enriched tags, every sort,
+every hash and EVERY state of the pooled builder, the request's results are line by line what a builder
+nobody used before gives for that line alone. -/
+theorem influx_request_lines_independent (c : ICfg) (sortK : List Tag → List Tag) (H : String → Nat) :
+    ∀ (lines : List ILine) (b : RB), (parseReq true c sortK H b lines).2 = aloneReq c sortK H lines
+  | [], _ => rfl
+  | ln :: rest, b => by
+    have h := lineStep_state_independent c sortK H b ln
+    simp only [parseReq, aloneReq]
+    rcases hX : lineStep true c sortK H b ln with ⟨b', r⟩
+    rw [hX] at h
+    simp only at h
+    rw [← h]
+    cases r <;> simp [influx_request_lines_independent c sortK H rest b']
+
+/-- two pool states give the same request results -/
+theorem influx_request_independent_of_pool (c : ICfg) (sortK : List Tag → List Tag) (H : String → Nat)
+    (lines : List ILine) (b b' : RB) :
+    (parseReq true c sortK H b lines).2 = (parseReq true c sortK H b' lines).2 := by
+  rw [influx_request_lines_independent, influx_request_lines_independent]
+
+/-- **a rejected line is rejected as a whole**: a line that is not stored when sent alone (comment,
+rejected by the parser or by Build) contributes nothing to the request — the rows stored are those of
+the request without it, whatever it had put into the builder before it was rejected. -/
+theorem influx_rejected_line_leaves_no_trace (c : ICfg) (sortK : List Tag → List Tag) (H : String → Nat)
+    (ln : ILine) (rest : List ILine) (b b' : RB)
+    (hrej : (lineStep true c sortK H RB.fresh ln).2 = .dropped ∨ (lineStep true c sortK H RB.fresh ln).2 = .skipped) :
+    storedRows (parseReq true c sortK H b (ln :: rest)).2 = storedRows (parseReq true c sortK H b' rest).2 := by
+  rw [influx_request_lines_independent, influx_request_lines_independent]
+  rcases hrej with h | h <;> simp [aloneReq, h, storedRows]
+
+/-- an accepted first line is stored as it is alone, and the rest of the request as without it -/
+theorem influx_accepted_line_stored_as_alone (c : ICfg) (sortK : List Tag → List Tag) (H : String → Nat)
+    (ln : ILine) (rest : List ILine) (b b' : RB) (s : Stored)
+    (hacc : (lineStep true c sortK H RB.fresh ln).2 = .stored s) :
+    storedRows (parseReq true c sortK H b (ln :: rest)).2 = s :: storedRows (parseReq true c sortK H b' rest).2 := by
+  rw [influx_request_lines_independent, influx_request_lines_independent]
+  simp [aloneReq, hacc, storedRows]
+
+/-- the code has the placement the theorems are about -/
+theorem influxResetAtLoopTop_expected : Generated.C16.influxResetAtLoopTop = true := by decide
+
+theorem influxParseLoopSteps_expected : Generated.C16.influxParseLoopSteps =
+    ["rowBuilder.Reset()", "comment-continue", "parse-line-or-continue", "enriched-tags-or-fail",
+     "append-built-row-or-continue"] := by decide
+
+/-- `parseLine` follows these builder calls and scanning steps in this order -/
+theorem influxParseLineCalls_expected : Generated.C16.influxParseLineCalls =
+    ["builder.AddNameSpace", "scanMetricName", "builder.AddMetricName", "scanTagLine", "parseTags",
+     "builder.AddTag", "scanFieldLine", "parseFields", "builder.AddSimpleField", "parseTimestamp",
+     "builder.AddTimestamp"] := by decide
+
+/-- … and returns early exactly here (guard, returned value) -/
+theorem influxParseLineRules_expected : Generated.C16.influxParseLineRules = [
+    ("bytes.HasPrefix(content, []byte{'#'})", "accept"),
+    ("err != nil", "accept"),
+    ("limits.EnableMetricNameLengthCheck() && len(metricName) > limits.MaxMetricNameLength", "constants.ErrMetricNameTooLong"),
+    ("err != nil", "err"),
+    ("err != nil", "err"),
+    ("limits.EnableTagsCheck() && len(tags)+numOfEnrichedTags > limits.MaxTagsPerMetric", "constants.ErrTooManyTagKeys"),
+    ("limits.EnableTagNameLengthCheck() && len(tagKey) > limits.MaxTagNameLength", "constants.ErrTagKeyTooLong"),
+    ("limits.EnableTagValueLengthCheck() && len(tagValue) > limits.MaxTagValueLength", "constants.ErrTagValueTooLong"),
+    ("err != nil", "err"),
+    ("err != nil", "err"),
+    ("err != nil && len(fields) == 0", "err"),
+    ("limits.EnableFieldsCheck() && len(fields) > limits.MaxFieldsPerMetric", "constants.ErrTooManyFields"),
+    ("limits.EnableFieldNameLengthCheck() && len(fieldName) > limits.MaxFieldNameLength", "constants.ErrFieldNameTooLong"),
+    ("err != nil", "err"),
+    ("err != nil", "err")] := by decide
+
+/-! non-vacuity and the negation for the other placement -/
+
+def icfg0 : ICfg := ⟨⟨0, 0, 0, 0, 0, 0⟩, "ns", [⟨"region", "sh"⟩], 7⟩
+/-- `cpu,host=a,leak=yes extra_sum=7 12x` — rejected at the timestamp, after tags and fields went in -/
+def lnBad : ILine :=
+  ⟨false, false, "cpu", false, [⟨"host", "a"⟩, ⟨"leak", "yes"⟩], false, [⟨"extra_sum", 2, .num 7⟩], true, none⟩
+/-- `cpu,host=b usage_last=2 1700000001000` -/
+def lnGood : ILine :=
+  ⟨false, false, "cpu", false, [⟨"host", "b"⟩], false, [⟨"usage_last", 1, .num 2⟩], false, some 1700000001000⟩
+def H0 : String → Nat := fun s => s.length
+
+example : storedRows (parseReq true icfg0 (insertionSort (less false)) H0 RB.fresh [lnBad, lnGood]).2 =
+    [⟨"cpu", "ns", 1700000001000, [⟨"host", "b"⟩, ⟨"region", "sh"⟩], [⟨"usage_last", 1, .num 2⟩], none, 16, 5⟩] := by
+  decide
+
+end InfluxRequest
+
+namespace Neg
+open LinVerif.InfluxStream LinVerif.FlatRow
+
+/-- with `Reset` only after an appended row (every `continue` skips it) the tags and fields of a
+rejected line are merged into the next accepted line: another tag set, other fields, another series
+hash — the stored form depends on the other lines of the request -/
+theorem influx_reset_after_append_leaks_rejected_line :
+    storedRows (parseReq false icfg0 (insertionSort (less false)) H0 RB.fresh [lnBad, lnGood]).2 =
+      [⟨"cpu", "ns", 1700000001000, [⟨"host", "b"⟩, ⟨"leak", "yes"⟩, ⟨"region", "sh"⟩],
+        [⟨"extra_sum", 2, .num 7⟩, ⟨"usage_last", 1, .num 2⟩], none, 25, 5⟩] ∧
+    storedRows (parseReq false icfg0 (insertionSort (less false)) H0 RB.fresh [lnBad, lnGood]).2 ≠
+      storedRows (aloneReq icfg0 (insertionSort (less false)) H0 [lnBad, lnGood]) := by
+  decide
 
 end Neg
 
